@@ -36,6 +36,7 @@ type Profile struct {
 	MultiArgPct int  // % of cases with >1 interface argument
 	UnnamedPct  int  // % of signatures with unnamed parameters
 	GopathPct   int  // % of worlds in GOPATH+vendor layout
+	MultiRefPct int  // % bias towards dependency interfaces whose one method type mentions several same-named packages
 }
 
 func DefaultProfile() Profile {
@@ -181,6 +182,14 @@ func pkgNameForDir(dir string) string {
 
 var typeNamePool = []string{"T", "Type", "Item", "Config", "Client", "ID", "URL", "Reader", "Context", "Node", "Thing", "Foo", "Bar", "Request",
 	"Options", "Key", "Value", "Event", "User", "MyType", "Data"}
+// type names whose de-capitalised form is a word the generated code needs (receiver, record variable, keywords,
+// predeclared types): an unnamed parameter of such a type must not be named after it
+var reservedStemTypes = []string{"Mock", "CallInfo", "String", "Int", "Func", "Map", "Range", "Select", "Default", "Bool", "Byte", "Uint8",
+	"Float64", "Struct", "Interface", "Var", "Go", "If", "Type", "Chan", "Import", "Package", "Return", "Rune", "Uintptr", "Complex128"}
+
+// ... and words moq's reserved list does not contain (known finding F-E, generated-name sibling)
+var reservedStemTypesOpen = []string{"Error", "Any", "Nil", "Append", "Panic", "Len", "True", "New", "Make"}
+
 var ifaceNamePool = []string{"Store", "Service", "Repo", "Doer", "Handler", "Backend", "Api", "Thing", "Reader", "Manager", "Cache", "Queue",
 	"Worker", "Finder", "Sink"}
 var methodNamePool = []string{"Get", "Put", "Do", "Run", "Close", "Find", "Create", "Delete", "Update", "List", "Send", "Recv", "Handle",
@@ -294,6 +303,17 @@ func (g *G) genDepDecls(p *Pkg) {
 	fresh := func() string {
 		for i := 0; ; i++ {
 			n := g.Pick(typeNamePool)
+			if g.Chance(25) {
+				n = g.Pick(reservedStemTypes)
+				if g.Chance(25) {
+					if g.excluded("F-E") {
+						continue
+					}
+					n = g.Pick(reservedStemTypesOpen)
+					g.label("type:predeclared-stem")
+				}
+				g.label("type:reserved-stem")
+			}
 			if i > 2 {
 				n = fmt.Sprintf("%s%d", n, i)
 			}
@@ -314,7 +334,47 @@ func (g *G) genDepDecls(p *Pkg) {
 	i1.Src = fmt.Sprintf("type %s interface {\n\t%s(x int) error\n}", i1.Name, m1)
 	extra := g.Int(0, 6)
 	for k := 0; k < extra; k++ {
-		switch g.Int(0, 13) {
+		shape := g.Int(0, 15)
+		if g.Chance(g.P.MultiRefPct) {
+			shape = 14
+		}
+		switch shape {
+		case 14, 15: // interface whose one method type mentions several other packages at once
+			if len(g.deps) < 2 {
+				continue
+			}
+			var others []*Pkg
+			// prefer packages sharing a name
+			first := g.deps[g.Int(0, len(g.deps)-1)]
+			others = append(others, first)
+			for _, o := range g.deps {
+				if o != first && o.Name == first.Name && len(others) < 3 {
+					others = append(others, o)
+				}
+			}
+			for _, o := range g.deps {
+				if len(others) < 2 && o != first {
+					others = append(others, o)
+				}
+			}
+			if len(others) < 2 {
+				continue
+			}
+			ma := g.freshMethod()
+			d := add(&Decl{Name: fresh(), Cmp: true, Iface: true, Methods: []string{ma}, Uses: others, MultiRef: true})
+			var parts []string
+			for _, o := range others {
+				parts = append(parts, fmt.Sprintf("%%Q{%s}%s", o.Path, o.Decls[0].Name))
+			}
+			switch g.Int(0, 2) {
+			case 0:
+				d.Src = fmt.Sprintf("type %s interface {\n\t%s(f func(%s) (%s, error)) error\n}", d.Name, ma, strings.Join(parts[:len(parts)-1], ", "), parts[len(parts)-1])
+			case 1:
+				d.Src = fmt.Sprintf("type %s interface {\n\t%s(m map[%s]%s) (r struct{ A []*%s })\n}", d.Name, ma, parts[0], parts[1], parts[len(parts)-1])
+			default:
+				d.Src = fmt.Sprintf("type %s interface {\n\t%s() (x chan struct {\n\t\tA %s\n\t\tB %s\n\t}, y [2]%s)\n}", d.Name, ma, parts[0], parts[1], parts[len(parts)-1])
+			}
+			g.label("dep:multi-ref-iface")
 		case 0:
 			d := add(&Decl{Name: fresh()})
 			d.Src = fmt.Sprintf("type %s struct {\n\tB []byte\n\tM map[string]int\n}", d.Name)
@@ -773,6 +833,31 @@ func (g *G) sig(depth int, inner bool) *Sig {
 		}
 		s.Params = append(s.Params, p)
 	}
+	if named {
+		// F-F also arises between a blank parameter's type-derived name and a user name (iD / Id -> ID)
+		keys := map[string]int{}
+		for i := range s.Params {
+			n := s.Params[i].Name
+			if n == "_" {
+				n = predictedName(s.Params[i].T)
+			}
+			if n != "" {
+				keys[foldKey(n)]++
+			}
+		}
+		for i := range s.Params {
+			if s.Params[i].Name != "_" {
+				continue
+			}
+			if n := predictedName(s.Params[i].T); n != "" && keys[foldKey(n)] > 1 {
+				if g.excluded("F-F") {
+					s.Params[i].Name = fmt.Sprintf("p%d", i)
+				} else {
+					g.label("param:case-fold-dup")
+				}
+			}
+		}
+	}
 	if np > 0 && g.Chance(18) {
 		last := &s.Params[np-1]
 		el := last.T
@@ -902,7 +987,7 @@ func (g *G) genTParams(skipEnsure bool) ([]TParamDecl, bool) {
 		}
 		usedN[name] = true
 		tp := TParamDecl{Name: name}
-		k := g.Int(0, 11)
+		k := g.Int(0, 13)
 		hardKind := func() bool {
 			// F-C: the self-check instantiation is invalid for these constraints
 			if !skipEnsure {
@@ -960,6 +1045,32 @@ func (g *G) genTParams(skipEnsure bool) ([]TParamDecl, bool) {
 			} else {
 				tp.ConSrc, tp.Kind = "any", "any"
 			}
+		case k == 12:
+			// constrained in terms of itself (inline)
+			if hardKind() {
+				tp.ConSrc, tp.Kind = fmt.Sprintf("interface{ Children%d() []%s }", i, name), "self-referential"
+			} else {
+				tp.ConSrc, tp.Kind = "any", "any"
+			}
+		case k == 13:
+			// constrained in terms of itself / the previous parameter through a generic interface
+			cs := g.ifaceCands(true)
+			var one []namedCand
+			for _, nc := range cs {
+				if nc.d.NTParams == 1 {
+					one = append(one, nc)
+				}
+			}
+			if len(one) > 0 && hardKind() {
+				nc := one[g.Int(0, len(one)-1)]
+				arg := name
+				if i > 0 && g.Chance(50) {
+					arg = tps[i-1].Name
+				}
+				tp.Con, tp.Kind = &Ty{K: KNamed, Name: nc.d.Name, Pkg: nc.p, Args: []*Ty{{K: KTParam, Name: arg}}}, "self-referential"
+			} else {
+				tp.ConSrc, tp.Kind = "any", "any"
+			}
 		}
 		g.label("constraint:" + tp.Kind)
 		tps = append(tps, tp)
@@ -973,6 +1084,28 @@ func (g *G) genIface(cfgSkipEnsure bool) *Iface {
 	// reserve mock names
 	g.topNames[it.Name+"Mock"] = true
 	k := g.Int(0, 99)
+	if g.Chance(g.P.MultiRefPct) {
+		var cs []namedCand
+		for _, nc := range g.ifaceCands(false) {
+			if nc.d.MultiRef {
+				cs = append(cs, nc)
+			}
+		}
+		if len(cs) > 0 {
+			nc := cs[g.Int(0, len(cs)-1)]
+			t := &Ty{K: KNamed, Name: nc.d.Name, Pkg: nc.p}
+			for _, m := range nc.d.Methods {
+				it.AllMeths[m] = true
+			}
+			g.label("iface:multi-ref-transitive")
+			if g.Chance(30) {
+				it.AliasOf = t
+				return it
+			}
+			it.Embeds = append(it.Embeds, t)
+			k = 50
+		}
+	}
 	if k < 5 {
 		// alias to a foreign/local method interface
 		cs := g.ifaceCands(false)
@@ -1142,6 +1275,12 @@ func (g *G) assignFiles() {
 		f.locals = append(f.locals, d)
 	}
 	globalAlias := map[*Pkg]string{}
+	tpNames := map[string]bool{}
+	for _, it := range g.ifaces {
+		for _, tp := range it.TParams {
+			tpNames[tp.Name] = true
+		}
+	}
 	for _, f := range g.files {
 		seen := map[*Pkg]bool{}
 		for _, it := range f.ifaces {
@@ -1178,7 +1317,7 @@ func (g *G) assignFiles() {
 			if q == "" {
 				q = p.Name
 			}
-			for tries := 0; usedQ[q] || g.declNames[q] || IsKeyword(q) || Predeclared[q] || q == "_"; tries++ {
+			for tries := 0; usedQ[q] || g.declNames[q] || tpNames[q] || IsKeyword(q) || Predeclared[q] || q == "_"; tries++ {
 				alias = fmt.Sprintf("%s%d", g.Pick(aliasPool), tries)
 				q = alias
 			}
